@@ -9,7 +9,7 @@ LEVEL = 'proof'
 
 def run(rep):
     # the unification family is verified in the plain term/store theory (smaller prelude: faster, more stable queries)
-    fw.deductive(rep, [t for t in UNIFY_FAMILY if 'get_value' not in t], ['engine_terms'], ['terms.smt2'])
+    fw.deductive(rep, [t for t in UNIFY_FAMILY if 'get_value' not in t], ['engine_terms'], ['terms.smt2'], timeout=25 if rep.tier == 'quick' else 60)
     enginep.engine_deductive(rep, enginep.GEN_FUNS + enginep.ITER_CLASSES + ['engine.Answer.match', 'engine.YP.evaluate_bounded'])
     from . import syntactic
     syntactic.no_direct_cell_writes(rep)
